@@ -248,6 +248,63 @@ def run(report, p):
                     r7.instance(f, n, f"module-level container {tgt} filled in {f.name}")
                     r7.check(False, f, n, f"{f.qual} fills the module-level container `{tgt}` (created empty at {m.name}:{empties[tgt].lineno}): results on the digest path are remembered across calls", construct=f"module-level cache {tgt} on the digest path")
 
+    # ------------------------------------------------------------------ R1.8
+    def _r18():
+        r8 = report.rule(
+            "R1.8",
+            "entry points hand through: every module-level function of the hasher module that reaches a read loop returns that loop's own result for the path and format(s) it was given "
+            "- the requested format list reaches the loop unfiltered, and no returned digest is cut out of / derived from the digest of another format",
+            2,
+        )
+        hmod = next((m for m in p.modules.values() if m.name.endswith(".hasher")), None)
+        for fq, f in sorted(p.funcs.items()):
+            if f.module is not hmod or f.cls is not None or f.outer is not None or fq in loop_q:
+                continue
+            if not any(q in loop_q for q in p.reachable([fq])):
+                continue
+            rets = [n for n in walk_no_nested(f.node) if isinstance(n, ast.Return) and n.value is not None]
+            if not rets:
+                continue
+            for rt in rets:
+                r8.instance(f, rt, f"{f.name}: return {norm(rt.value)[:60]}")
+                for o in pr.origins(rt.value, f):
+                    for a in alts(o):
+                        loop_calls = [t for t in subterms(a) if t[0] == "call" and (t[1] in loop_q or (t[1] in p.funcs and p.funcs[t[1]].module is hmod and t[1] != fq and any(q in loop_q for q in p.reachable([t[1]]))))]
+                        if not loop_calls:
+                            raise AnalysisError(f"{f.loc(rt)}: {f.name} returns `{show(a)[:100]}`, which is not built from a read loop's result")
+                        for lc in loop_calls:
+                            callee = p.funcs.get(lc[1])
+                            cparams = [x for x in (callee.params if callee else []) if x not in ("self", "cls")]
+                            bad_args = []
+                            for i, x in enumerate(lc[2]):
+                                if x[0] in ("param", "const"):
+                                    continue
+                                if x[0] == "call" and x[1] in ("ext:os.path.abspath", "ext:os.path.realpath", "ext:os.path.normpath", "builtin:str", "ext:os.fspath") and all(y[0] == "param" for y in x[2]):
+                                    continue  # the same file, spelled absolutely
+                                pname = cparams[i] if i < len(cparams) else ""
+                                if "format" in pname:
+                                    bad_args.append(x)
+                                else:
+                                    raise AnalysisError(f"{f.loc(rt)}: {f.name} passes `{show(x)[:80]}` as `{pname}` to the read loop, a form this checker does not model")
+                            r8.check(not bad_args, f, rt, f"{f.name} does not hand the format list it was given to the read loop unchanged (`{show(bad_args[0])[:80] if bad_args else ''}`): formats are computed for another list than the requested one", construct=f"{f.name}: read loop format argument is not the caller's")
+                        # a digest string must not be indexed / sliced: elem(elem(<loop result>, format), <index>)
+                        cut = [t for t in subterms(a) if t[0] == "elem" and t[1][0] == "elem" and t[1][1][0] == "call" and t[1][1] in loop_calls]
+                        r8.check(not cut, f, rt, f"{f.name} returns a value cut out of another digest (`{show(cut[0])[:110] if cut else ''}`): the digest of a format is not the standard algorithm's digest of the file's bytes", construct=f"{f.name}: digest derived from another format's digest")
+                        if not cut and not (a[0] == "call" and any(a is lc for lc in loop_calls)):
+                            # some other repackaging of the loop's result: must be recognisable as identity
+                            if not r8.findings:
+                                raise AnalysisError(f"{f.loc(rt)}: {f.name} repackages the read loop's result in a way this checker does not model: {show(a)[:120]}")
+
+
+    try:
+        _r18()
+    except AnalysisError as e:
+        # an unmodelled entry-point shape is an analysis error only if nothing else was already found (a violation is reported first)
+        if any(rr.findings for rr in report.rules):
+            report.rules[-1].note(f"R1.8 not evaluated further: {e}")
+        else:
+            raise
+
     report.not_decided += ["that hashlib/xxhash implement the standard algorithms", "the base-58 conversion for all 512-bit values (only its constants, direction and encoder/decoder agreement)", "digests of concrete files"]
 
 
